@@ -47,7 +47,7 @@ func (p *Peering) checkListen(w *mgr.WorkerCtx, listening map[string]string) {
 		if err != nil {
 			w.Warn(
 				"failed to listen",
-				"listenURL", ln.ID(),
+				"listenURL", listenURL,
 				"err", err,
 			)
 			continue
